@@ -14,6 +14,7 @@ import (
 	"os"
 	"os/exec"
 	"path/filepath"
+	"runtime"
 	"strings"
 	"time"
 
@@ -40,6 +41,9 @@ type inst struct {
 	// the point of these scenarios - what it leaves behind in the process (the
 	// buffer pool) must not change what later instances produce.
 	FailAt int `json:"env_call_failing,omitempty"`
+	// Chunk > 0 caps the bytes a reader instance's source returns per Read, so
+	// that a failing call can fall in the middle of a page body.
+	Chunk int `json:"source_chunk,omitempty"`
 }
 
 var errEnv = fmt.Errorf("injected environment fault")
@@ -63,6 +67,7 @@ type schedSource struct {
 	r      *bytes.Reader
 	calls  int
 	failAt int
+	chunk  int
 }
 
 func (s *schedSource) Read(p []byte) (int, error) {
@@ -70,6 +75,9 @@ func (s *schedSource) Read(p []byte) (int, error) {
 	s.calls++
 	if s.calls == s.failAt {
 		return 0, errEnv
+	}
+	if s.chunk > 0 && len(p) > s.chunk {
+		p = p[:s.chunk]
 	}
 	return s.r.Read(p)
 }
@@ -134,7 +142,7 @@ func body(in inst, file []byte, out *outcome) sched.Body {
 			out.bytes = s.buf.Bytes()
 		case "reader":
 			t := sut.Get(in.Target)
-			src := &schedSource{r: bytes.NewReader(file), failAt: in.FailAt}
+			src := &schedSource{r: bytes.NewReader(file), failAt: in.FailAt, chunk: in.Chunk}
 			rr := drive.ReadAll(t, src, 16)
 			out.rows = rr.Snap
 			switch {
@@ -171,10 +179,16 @@ func solo(in inst) (outcome, []byte) {
 	}
 	x = sched.Run([]sched.Body{body(in, file, &o2)}, nil, 0)
 	if o1.hash() != o2.hash() {
-		panic("solo run is not deterministic")
+		// the same history, alone, twice in a row in this process gives two
+		// different outcomes: that is the property failing in its simplest
+		// form (the first run changed what the second one produces)
+		soloNondet = fmt.Sprintf("instance %+v run alone twice in a row gives two different outcomes (error %q then %q, %d then %d bytes, %d then %d rows): what it produces depends on the earlier run in the same process", in, o1.err, o2.err, len(o1.bytes), len(o2.bytes), len(o1.rows), len(o2.rows))
 	}
 	return o1, file
 }
+
+// soloNondet is set by solo when repeating a history changes its outcome.
+var soloNondet string
 
 // ---------------------------------------------------------------- scenarios
 
@@ -186,6 +200,10 @@ type scenario struct {
 	Seeds     []int  `json:"pool_seed_caps"` // buffers pre-seeded into every pool (capacities)
 	Mode      int    `json:"pool_mode"`
 	Bound     int    `json:"bound"`
+	// Seq runs the instances one after the other on ONE goroutine (what a
+	// program that retries after a failure does): state that the library
+	// keeps per goroutine / per P (sync.Pool) is then shared as well.
+	Seq bool `json:"same_goroutine_sequence,omitempty"`
 }
 
 type scase struct {
@@ -270,6 +288,7 @@ func scenarios(thorough bool) []scenario {
 			for k := 1; k <= calls; k++ {
 				a := w(tn, cd, 0)
 				a.FailAt = k
+				out = append(out, scenario{Name: fmt.Sprintf("same goroutine: %s writer failing at sink call %d/%d (%s), then the same history on a healthy sink", tn, k, calls, sut.Codec(cd)), Insts: []inst{a, w(tn, cd, 0)}, Mode: pool.Reuse, Bound: 0, Seq: true})
 				for _, mode := range []int{pool.Reuse, pool.ReusePoison} {
 					out = append(out, scenario{Name: fmt.Sprintf("%s writer failing at sink call %d/%d (%s), then B gzip", tn, k, calls, sut.Codec(cd)), Insts: []inst{a, w("flat3", 2, 0)}, Mode: mode, Bound: fb})
 					if cd == 1 {
@@ -278,11 +297,15 @@ func scenarios(thorough bool) []scenario {
 				}
 			}
 		}
-		calls := envCalls(r("mini", cd))
+		ra := r("mini", cd)
+		ra.Chunk = 16 // a failing call can then fall inside a page body
+		calls := envCalls(ra)
 		for k := 1; k <= calls; k++ {
-			a := r("mini", cd)
+			a := ra
 			a.FailAt = k
 			out = append(out, scenario{Name: fmt.Sprintf("reader failing at source call %d/%d (%s), then A snappy", k, calls, sut.Codec(cd)), Insts: []inst{a, w("mini", 1, 0)}, Mode: pool.ReusePoison, Bound: 0})
+			out = append(out, scenario{Name: fmt.Sprintf("reader failing at source call %d/%d (%s), then a reader of the same file", k, calls, sut.Codec(cd)), Insts: []inst{a, r("mini", cd)}, Mode: pool.Reuse, Bound: 0})
+			out = append(out, scenario{Name: fmt.Sprintf("same goroutine: reader failing at source call %d/%d (%s), then a reader of the same file", k, calls, sut.Codec(cd)), Insts: []inst{a, r("mini", cd)}, Mode: pool.Reuse, Bound: 0, Seq: true})
 		}
 	}
 	// every ByteBuffer method as a scheduling point too (no reduction)
@@ -313,7 +336,7 @@ func envCalls(in inst) int {
 		if err := runWriter(inst{Kind: "writer", Target: in.Target, Codec: in.Codec, Seed: in.Seed}, &b); err != nil {
 			panic(err)
 		}
-		src := &schedSource{r: bytes.NewReader(b.Bytes())}
+		src := &schedSource{r: bytes.NewReader(b.Bytes()), chunk: in.Chunk}
 		sched.Run([]sched.Body{func() { drive.ReadAll(sut.Get(in.Target), src, 16) }}, nil, 0)
 		n = src.calls
 	}
@@ -326,10 +349,23 @@ type prepared struct {
 	files [][]byte
 }
 
+type soloResult struct {
+	o outcome
+	f []byte
+}
+
+var soloCache = map[inst]soloResult{}
+
 func prepare(sc scenario) *prepared {
 	p := &prepared{sc: sc}
 	for _, in := range sc.Insts {
-		o, f := solo(in)
+		sr, ok := soloCache[in]
+		if !ok {
+			o, f := solo(in)
+			sr = soloResult{o, f}
+			soloCache[in] = sr
+		}
+		o, f := sr.o, sr.f
 		if o.err != "" && in.FailAt == 0 {
 			panic("solo run fails: " + o.err)
 		}
@@ -364,6 +400,14 @@ func (p *prepared) explorer(outs *[]outcome) *sched.Explorer {
 		var bs []sched.Body
 		for i, in := range p.sc.Insts {
 			bs = append(bs, body(in, p.files[i], &(*outs)[i]))
+		}
+		if p.sc.Seq {
+			all := bs
+			return []sched.Body{func() {
+				for _, b := range all {
+					b()
+				}
+			}}
 		}
 		return bs
 	}
@@ -472,7 +516,14 @@ func run(c *fw.Ctx) {
 			c.Capped("time budget hit before scenario " + sc.Name)
 			break
 		}
+		soloNondet = ""
 		p := prepare(sc)
+		if soloNondet != "" {
+			if c.Shard == si%c.Shards {
+				c.Violate(fmt.Sprintf("%s|repeating a history alone changes its outcome", sc.Name), soloNondet+"\nscenario "+sc.Name, "schedule", scase{sc, nil})
+			}
+			continue
+		}
 		var outs []outcome
 		e := p.explorer(&outs)
 		e.Shard, e.Shards = c.Shard, c.Shards
@@ -590,7 +641,11 @@ func replay(c *fw.Ctx, kind string, data json.RawMessage) string {
 	if err := json.Unmarshal(data, &sc); err != nil {
 		return "bad case: " + err.Error()
 	}
+	soloNondet = ""
 	p := prepare(sc.Scenario)
+	if soloNondet != "" {
+		return soloNondet
+	}
 	var outs []outcome
 	e := p.explorer(&outs)
 	p.reset()
@@ -612,6 +667,10 @@ func replay(c *fw.Ctx, kind string, data json.RawMessage) string {
 
 // Main runs the check.
 func Main() {
+	// one P: the cooperative scheduler runs one goroutine at a time anyway,
+	// and per-P runtime state (sync.Pool caches) then behaves the same in the
+	// exploring process and in the fresh replay processes
+	runtime.GOMAXPROCS(1)
 	fw.Main(fw.Spec{
 		ID:    "C13",
 		Level: "model_checking",
@@ -625,7 +684,7 @@ func Main() {
 		},
 		Run:            run,
 		Replay:         replay,
-		QuickBudget:    130 * time.Second,
+		QuickBudget:    240 * time.Second,
 		ThoroughBudget: 80 * time.Minute,
 	})
 }
